@@ -423,6 +423,9 @@ type Sys struct {
 	Clause    string
 	joinChk   func(i, v int)
 	Start     time.Duration // virtual time at which the stage was constructed
+	sfx       string        // suffix of task and stream names (second instance of a twin run)
+	pinned    bool          // user functions belong to this instance only
+	group     int           // task group of this instance (twin runs)
 }
 
 func (s *Sys) fails(idx int) bool {
@@ -461,7 +464,7 @@ func (s *Sys) indexOf(x int) int {
 // positions.
 func (s *Sys) elemFn() func(int) (int, error) {
 	return func(x int) (int, error) {
-		s := curSys(s.E) // the stage in use now (a morphism value may be shared by two uses)
+		s := s.cur() // the stage in use now (a morphism value may be shared by two uses)
 		idx := s.E.Enter(s.Calls, x)
 		defer s.E.Leave(s.Calls, idx)
 		if s.P.Mode != "pure" && s.fails(s.pos(idx, x)) {
@@ -474,7 +477,7 @@ func (s *Sys) elemFn() func(int) (int, error) {
 
 func (s *Sys) predFn() func(int) (bool, error) {
 	return func(x int) (bool, error) {
-		s := curSys(s.E) // the stage in use now (a morphism value may be shared by two uses)
+		s := s.cur() // the stage in use now (a morphism value may be shared by two uses)
 		defer s.E.Leave(s.Calls, s.E.Enter(s.Calls, x))
 		return pred(s.P.Fn, s.P.FnArg, x), nil
 	}
@@ -482,7 +485,7 @@ func (s *Sys) predFn() func(int) (bool, error) {
 
 func (s *Sys) visitFn() func(int) (int, error) {
 	return func(x int) (int, error) {
-		s := curSys(s.E) // the stage in use now (a morphism value may be shared by two uses)
+		s := s.cur() // the stage in use now (a morphism value may be shared by two uses)
 		defer s.E.Leave(s.Calls, s.E.Enter(s.Calls, x))
 		if s.P.Mode != "pure" && s.fails(s.indexOf(x)) {
 			// ForEach has nowhere to report a failure: every element is
@@ -496,7 +499,7 @@ func (s *Sys) visitFn() func(int) (int, error) {
 
 func (s *Sys) arrowFn() func(context.Context, int, chan<- int) error {
 	return func(ctx context.Context, x int, out chan<- int) error {
-		s := curSys(s.E)
+		s := s.cur()
 		idx := s.E.Enter(s.Calls, x)
 		defer s.E.Leave(s.Calls, idx)
 		if s.P.Mode != "pure" && s.fails(s.pos(idx, x)) {
@@ -517,7 +520,7 @@ func (s *Sys) arrowFn() func(context.Context, int, chan<- int) error {
 // previous seed); fails on planned *call* indices.
 func (s *Sys) genFn(unfold bool) func(int) (int, error) {
 	return func(x int) (int, error) {
-		s := curSys(s.E)
+		s := s.cur()
 		idx := s.E.Enter(s.Calls, x)
 		if idx < 0 {
 			return 0, nil
@@ -532,6 +535,15 @@ func (s *Sys) genFn(unfold bool) func(int) (int, error) {
 		}
 		return emitF(s.P.Fn, x), nil
 	}
+}
+
+// cur is the stage a shared user function is working for right now: the one
+// in use (phased runs), or — when two instances live side by side — its own.
+func (s *Sys) cur() *Sys {
+	if s.pinned {
+		return s
+	}
+	return curSys(s.E)
 }
 
 // curSys is the stage under test at this moment of the run.
@@ -549,6 +561,9 @@ func curSys(e *driver.Env) *Sys {
 // the same run, if any: a caller may well keep one pipe.Lift(f) value and
 // hand it to several stages.
 func shared[T any](e *driver.Env, key string, mk func() T) T {
+	if e.Plan.Twin != nil || e.Plan.X("is_twin") == 1 {
+		return mk() // two instances side by side: each has its own functions
+	}
 	if e.Shared == nil {
 		e.Shared = map[string]any{}
 	}
@@ -594,24 +609,24 @@ func (s *Sys) input(i int) chan int {
 	if i < len(s.P.Inputs) {
 		items = s.P.Inputs[i]
 	}
-	s.Prods = append(s.Prods, driver.Produce(s.E, fmt.Sprintf("producer%d", i), ch, items, s.P.Producer(i)))
+	s.Prods = append(s.Prods, driver.Produce(s.E, fmt.Sprintf("producer%d%s", i, s.sfx), ch, items, s.P.Producer(i)))
 	return ch
 }
 
 func (s *Sys) consumeOut(ch <-chan int) {
-	s.Out = driver.Consume(s.E, "consumer.out", ch, s.P.Consumer(0), func(i int, v int) {
+	s.Out = driver.Consume(s.E, "consumer.out"+s.sfx, ch, s.P.Consumer(0), func(i int, v int) {
 		s.onValue("out", s.Out, s.M.Out, i, v)
 	})
 }
 
 func (s *Sys) consumeOut2(ch <-chan int) {
-	s.Out2 = driver.Consume(s.E, "consumer.out2", ch, s.P.Consumer(1), func(i int, v int) {
+	s.Out2 = driver.Consume(s.E, "consumer.out2"+s.sfx, ch, s.P.Consumer(1), func(i int, v int) {
 		s.onValue("out2", s.Out2, s.M.Out2, i, v)
 	})
 }
 
 func (s *Sys) consumeErr(ch <-chan error) {
-	s.Err = driver.Consume(s.E, "consumer.err", ch, s.P.Consumer(2), func(i int, err error) {
+	s.Err = driver.Consume(s.E, "consumer.err"+s.sfx, ch, s.P.Consumer(2), func(i int, err error) {
 		id := errID(err)
 		if s.multiset {
 			s.onMulti("err", s.Err.Got[:i], s.M.Errs, id)
@@ -637,7 +652,7 @@ func (s *Sys) outErr(out <-chan int, exx <-chan error) {
 }
 
 func (s *Sys) consumeDone(ch <-chan struct{}) {
-	s.Done = driver.Consume(s.E, "consumer.done", ch, s.P.Consumer(0), func(i int, _ struct{}) {
+	s.Done = driver.Consume(s.E, "consumer.done"+s.sfx, ch, s.P.Consumer(0), func(i int, _ struct{}) {
 		s.E.Failf(s.Clause+".prefix", "value on a done channel", "%s: done channel delivered a value", s.P.Stage)
 	})
 }
@@ -717,9 +732,58 @@ func planInterval(p *driver.Plan) time.Duration {
 }
 
 // BuildStage creates the stage named by the plan with producers and consumers.
-func BuildStage(e *driver.Env, clause string) *Sys {
+// Twin is a pair of stage instances alive side by side in one run (isolated
+// runs only: what they may share is package-level state of the library).
+type Twin struct{ A, B *Sys }
+
+// BuildTwin builds the stage of the plan and, next to it, the stage of
+// plan.Twin with its own environment.
+func BuildTwin(e *driver.Env, clause string) *Twin {
+	pa := e.Plan
+	a := buildStage(e, clause, "", true)
+	pb := pa.Twin
+	pb.SetX("is_twin", 1)
+	e.Plan = pb
+	b := buildStage(e, clause, "#2", true)
+	e.Plan = pa
+	return &Twin{A: a, B: b}
+}
+
+// EachTwin evaluates an oracle written for one stage on both instances.
+func EachTwin(e *driver.Env, final func(*driver.Env)) {
+	tw := e.Data.(*Twin)
+	plan, all := e.Plan, e.Tasks
+	for _, s := range []*Sys{tw.A, tw.B} {
+		// the oracle sees the library tasks of its own instance only
+		var own []simrt.TaskInfo
+		for _, t := range all {
+			if !t.Lib || t.Group == s.group {
+				own = append(own, t)
+			}
+		}
+		e.Data, e.Plan, e.Tasks = s, s.P, own
+		final(e)
+		if e.Viol != nil {
+			break
+		}
+	}
+	e.Data, e.Plan, e.Tasks = tw, plan, all
+}
+
+func BuildStage(e *driver.Env, clause string) *Sys { return buildStage(e, clause, "", false) }
+
+func buildStage(e *driver.Env, clause, sfx string, pinned bool) *Sys {
 	p := e.Plan
-	s := &Sys{E: e, P: p, M: modelOf(p), Calls: &driver.Calls{}, Clause: clause}
+	s := &Sys{E: e, P: p, M: modelOf(p), Calls: &driver.Calls{}, Clause: clause, sfx: sfx, pinned: pinned}
+	if pinned {
+		// tasks of this instance (and everything they spawn) carry its group
+		s.group = 1
+		if sfx != "" {
+			s.group = 2
+		}
+		e.S.SpawnGroup = s.group
+		defer func() { e.S.SpawnGroup = 0 }()
+	}
 	stage, isFork := baseStage(p.Stage)
 	s.fork = isFork
 	s.multiset = isFork
@@ -736,9 +800,12 @@ func BuildStage(e *driver.Env, clause string) *Sys {
 	if k := p.X("late_build"); k > 0 {
 		// the stage is constructed late: by then the producers may already
 		// have filled the input buffers and be parked on the next send
-		simrt.GoEnv("builder", func() {
+		simrt.GoEnv("builder"+s.sfx, func() {
 			for i := 0; i < k; i++ {
 				simrt.Yield("builder.wait")
+			}
+			if d := p.X("build_delay_us"); d > 0 {
+				simrt.Sleep("builder.delay", time.Duration(d)*time.Microsecond)
 			}
 			if !simrt.Free() {
 				s.construct(clause)
@@ -838,7 +905,7 @@ func (s *Sys) construct(clause string) *Sys {
 		s.consumeOut(ch)
 	case "ToSeq":
 		in := s.input(0)
-		simrt.GoEnv("toseq", func() {
+		simrt.GoEnv("toseq"+s.sfx, func() {
 			r := pipe.ToSeq[int](in)
 			if !simrt.Free() {
 				s.ToSeqRes, s.ToSeqDone = r, true
